@@ -146,6 +146,19 @@ def ecdsa_jobs(chk, n_each=1):
         script = push(sig) + O("DROP") + tail
         flags = sorted(f for f in SIGFLAGS if rng.random() < 0.4)
         add("BASE:findanddelete", script, [sig], flags, "BASE", sp)
+        # the signature push in other places of the script code: at its very end, twice, in the middle, right after the opcode
+        place = ["end", "twice", "middle", "after"][i % 4]
+        if place == "end":
+            body_wo = push(key) + O("CHECKSIGVERIFY"); mk = lambda sg: push(key) + O("CHECKSIGVERIFY") + push(sg)
+        elif place == "twice":
+            body_wo = O("DROP") + O("DROP") + tail; mk = lambda sg: push(sg) + push(sg) + O("DROP") + O("DROP") + tail
+        elif place == "middle":
+            body_wo = O("NOP") + O("DROP") + tail; mk = lambda sg: O("NOP") + push(sg) + O("DROP") + tail
+        else:
+            body_wo = push(key) + O("CHECKSIGVERIFY") + O("DROP") + b"\x51"; mk = lambda sg: push(key) + O("CHECKSIGVERIFY") + push(sg) + O("DROP") + b"\x51"
+        d2 = btc.sighash_legacy(sp.tx, 0, body_wo, ht)
+        r2, s2 = btc.ecdsa_sign(sec, d2); sig2 = btc.der_encode(r2, s2) + bytes([ht])
+        add("BASE:findanddelete-" + place, mk(sig2), [sig2], flags, "BASE", sp)
     return jobs
 
 
@@ -252,6 +265,17 @@ def taproot_jobs(chk):
                     n += 1
                     jobs.append(SessionJob("t%d:keypath:ht%02x:%s" % (n, ht, mut), script, [sig], [], "TAPROOT", cmds=["steps"],
                                            cmp=["stack", "alt", "cond", "done", "digest"], txctx=sp.txctx(annex=annex, preamble=True, taproot=True)))
+    # unknown key types with EMPTY signatures (nothing to verify, but the key type rule still applies), CHECKSIG / CHECKSIGVERIFY / CHECKSIGADD
+    for klen in (1, 31, 33, 65):
+        for fl in ([], ["DISCOURAGE_UPGRADABLE_PUBKEYTYPE"], ["DISCOURAGE_UPGRADABLE_PUBKEYTYPE", "NULLFAIL"]):
+            sp = Spend(rng, 1, 1, 0, spk=b"\x51\x20" + b"\x11" * 32, witness=True)
+            for nm, script, stack in (("cs", push(b"\x07" * klen) + O("CHECKSIG") + O("NOT"), [b""]),
+                                      ("csa", b"\x00" + push(b"\x07" * klen) + O("CHECKSIGADD") + O("NOT"), [b""]),
+                                      ("csv", push(b"\x07" * klen) + O("CHECKSIGVERIFY") + b"\x51", [b""]),
+                                      ("csa2", b"\x00" + push(b"\x07" * klen) + O("CHECKSIGADD") + push(b"\x08" * klen) + O("CHECKSIGADD"), [b"\x01" * 64, b""])):
+                n += 1
+                jobs.append(SessionJob("t%d:unknownkey-emptysig:%s:%d" % (n, nm, klen), script, stack, fl, "TAPSCRIPT", cmds=["steps"], cmp=CMP_SIG, weight=500,
+                                       txctx=sp.txctx(leafhash=b"\x00" * 32, preamble=True)))
     # unknown key types and the weight budget
     for w in (0, 49, 50, 99, 100, 149, 150):
         for klen in (1, 31, 33, 65):
